@@ -10,7 +10,7 @@ from vf.engine import Ctx, derive_seed, replay_body, run_given
 
 PROPERTY = "C14"
 RULE = (
-    "timestamped Squeeth frames (1-14 minute rows; ETH price, oSQTH/ETH price and normalisation-factor paths with jumps, "
+    "timestamped Squeeth frames (1-14 rows spaced 1, 2 or 5 minutes; ETH price, oSQTH/ETH price and normalisation-factor paths with jumps, "
     "flats and drifts; the TWAP window shorter than 7 rows at the start) with the oSQTH/WETH pool at the same prices; vault "
     "programs (open / deposit / mint with generated collateral ratios from 1.2x to 3x of the limit, burn and withdraw, LP "
     "positions minted around the price and lent to / taken back from vaults) followed bar by bar through update(); every "
@@ -24,7 +24,7 @@ ASSUMPTIONS = [
     "completeness (margin 0.1%) is asserted for open_deposit_mint, burn_and_withdraw and withdraw_uni_position only when the wallet covers the operation",
 ]
 MIN_NONTRIVIAL = {"quick": 3000, "thorough": 60000}
-REQUIRED_LABELS = ["mint.accepted", "mint.rejected.unsafe", "withdraw.accepted", "withdraw.rejected", "lp.deposited", "lp.withdraw.accepted", "liquidation.plain.half", "liquidation.plain.full", "liquidation.lp_first", "liquidation.capped", "twap.short_window", "twap.full_window", "safe.not_liquidated", "dust.rejected", "lp.pending"]
+REQUIRED_LABELS = ["mint.accepted", "mint.rejected.unsafe", "withdraw.accepted", "withdraw.rejected", "lp.deposited", "lp.withdraw.accepted", "liquidation.plain.half", "liquidation.plain.full", "liquidation.lp_first", "liquidation.capped", "twap.short_window", "twap.full_window", "safe.not_liquidated", "dust.rejected", "lp.pending", "twap.coarse_rows"]
 
 D = Decimal
 SCALE = D(10000)
@@ -67,7 +67,7 @@ def st_case(draw):
                 ops.append([b, k, draw(st.integers(0, 2)), draw(st.sampled_from(["0.3", "0.5", "0.9"]))])
             else:
                 ops.append([b, k, v, draw(st.integers(0, 2))])
-    return {"rows": rows, "ops": ops, "weth": draw(st.sampled_from(["10", "100"])), "osqth": draw(st.sampled_from(["0", "50", "2000"]))}
+    return {"rows": rows, "ops": ops, "weth": draw(st.sampled_from(["10", "100"])), "osqth": draw(st.sampled_from(["0", "50", "2000"])), "step": draw(st.sampled_from([1, 1, 1, 2, 5]))}
 
 
 class W:
@@ -85,7 +85,8 @@ class W:
         self.broker.add_market(self.uni)
         self.broker.add_market(self.sq)
         n = len(case["rows"])
-        self.idx = world.minute_index(0, n)
+        self.step = case.get("step", 1)  # minutes between rows (a frame resampled to a coarser bar interval)
+        self.idx = pd.date_range(world.BASE_DAY, periods=n, freq=f"{self.step}min")
         self.sq.data = pd.DataFrame({"norm_factor": [D(r["nf"]) for r in case["rows"]], "WETH": [D(r["eth"]) for r in case["rows"]], "OSQTH": [D(r["osq"]) for r in case["rows"]]}, index=self.idx)
         self.broker.set_balance(self.weth, D(case["weth"]))
         self.broker.set_balance(self.osqth, D(case["osqth"]))
@@ -108,7 +109,7 @@ class W:
 
     # reference quantities of the current bar
     def win(self, col):
-        lo = max(0, self.i - 6)
+        lo = max(0, self.i - 6 // self.step)  # rows whose timestamp lies within the trailing 7 minutes
         return [self.case["rows"][j][col] for j in range(lo, self.i + 1)]
 
     def twap_eth(self):
@@ -165,7 +166,9 @@ def body(case, ctx: Ctx):
     seen_twap = {}
     for i in range(len(case["rows"])):
         ctx.guarded("set_bar", case, w.set_bar, i)
-        labels.add("twap.full_window" if i >= 6 else "twap.short_window")
+        labels.add("twap.full_window" if i >= 6 // w.step else "twap.short_window")
+        if w.step > 1:
+            labels.add("twap.coarse_rows")
         # TWAP view against the geometric mean of the trailing window
         for tok, ref in ((w.weth, w.twap_eth()), (w.osqth, w.twap_osq())):
             got = ctx.guarded("twap", case, w.sq.get_twap_price, tok)
